@@ -251,15 +251,7 @@ class ScoreFormatter:
 
         self.text = '\n'.join(lines)
 
-        # If first bar idx != 1 transform it to m1
         lines = self.text.split('\n')
-        for idx, line in enumerate(lines):
-            if self.is_bar(line):
-                if line.split(' ')[0] != 'm1':
-                    lines[idx] = 'm1' + line[2:]
-                break
-
-        self.text = '\n'.join(lines)
 
         for line in lines:
             line = line.lstrip('\t').lstrip(' ')
